@@ -662,3 +662,24 @@ def signal_values(decl_call, env):
     if not isinstance(mx, int) or not isinstance(mn, int) or mn != 0 or mx < 1:
         return None
     return 2 ** max(pyconst._bits_for(mx - 1), 1)
+
+
+def holds_copy_of(fx, cdef, reg, src):
+    """The declaration of `reg` (a signal that is assigned the plain value of `src`) is as wide as `src` whatever the parameters:
+    `Signal.like(src)`, `Signal(len(src))` / `Signal(src.nbits)`, or literally one of the declarations `src` has in the class (when
+    `src` has exactly one).  Returns (ok, text of the declaration)."""
+    d = fx.decl.get(reg)
+    if d is None:
+        return False, "?"
+    call = d[1]
+    txt = norm(call)
+    if not isinstance(call, ast.Call):
+        return False, txt
+    f = norm(call.func)
+    if f == "Signal.like" and call.args and norm(call.args[0]) == src:
+        return True, txt
+    if f == "Signal" and call.args and norm(call.args[0]) in (f"len({src})", f"{src}.nbits"):
+        return True, txt
+    decls = {norm(st.value) for st in ast.walk(cdef) if isinstance(st, ast.Assign) and isinstance(st.value, ast.Call) and
+             norm(st.value.func) in ("Signal", "Signal.like") and any(norm(t) == src for t in st.targets)}
+    return (len(decls) == 1 and txt in decls), txt
